@@ -9,7 +9,8 @@ Inductive cx :=
 | CLeaf (name : string)
 | CInt (z : Z) | CStr (s : string) | CNil | CTrue | CFalse
 | CNot (a : cx) | CAnd (a b : cx) | COr (a b : cx)
-| CEq (a b : cx) | CNe (a b : cx) | CLt (a b : cx) | CLe (a b : cx) | CGt (a b : cx) | CGe (a b : cx).
+| CEq (a b : cx) | CNe (a b : cx) | CLt (a b : cx) | CLe (a b : cx) | CGt (a b : cx) | CGe (a b : cx)
+| CAdd (a b : cx) | CSub (a b : cx).
 
 (* VNil b: a nil-comparable value, b = "is nil"; VErr: ill-typed or unknown leaf *)
 Inductive cval := VB (b : bool) | VZ (z : Z) | VS (s : string) | VNil (isnil : bool) | VErr.
@@ -25,6 +26,8 @@ Definition veq (x y : cval) : cval :=
 Definition vnot (x : cval) : cval := match x with VB b => VB (negb b) | _ => VErr end.
 Definition vcmp (f : Z -> Z -> bool) (x y : cval) : cval :=
   match x, y with VZ a, VZ b => VB (f a b) | _, _ => VErr end.
+Definition varith (f : Z -> Z -> Z) (x y : cval) : cval :=
+  match x, y with VZ a, VZ b => VZ (f a b) | _, _ => VErr end.
 
 Fixpoint ceval (env : string -> cval) (c : cx) : cval :=
   match c with
@@ -43,6 +46,8 @@ Fixpoint ceval (env : string -> cval) (c : cx) : cval :=
   | CLe a b => vcmp Z.leb (ceval env a) (ceval env b)
   | CGt a b => vcmp Z.gtb (ceval env a) (ceval env b)
   | CGe a b => vcmp Z.geb (ceval env a) (ceval env b)
+  | CAdd a b => varith Z.add (ceval env a) (ceval env b)
+  | CSub a b => varith Z.sub (ceval env a) (ceval env b)
   end.
 
 Fixpoint cx_eqb (a b : cx) : bool :=
@@ -53,7 +58,8 @@ Fixpoint cx_eqb (a b : cx) : bool :=
   | CNil, CNil | CTrue, CTrue | CFalse, CFalse => true
   | CNot x, CNot y => cx_eqb x y
   | CAnd x1 x2, CAnd y1 y2 | COr x1 x2, COr y1 y2 | CEq x1 x2, CEq y1 y2 | CNe x1 x2, CNe y1 y2
-  | CLt x1 x2, CLt y1 y2 | CLe x1 x2, CLe y1 y2 | CGt x1 x2, CGt y1 y2 | CGe x1 x2, CGe y1 y2 =>
+  | CLt x1 x2, CLt y1 y2 | CLe x1 x2, CLe y1 y2 | CGt x1 x2, CGt y1 y2 | CGe x1 x2, CGe y1 y2
+  | CAdd x1 x2, CAdd y1 y2 | CSub x1 x2, CSub y1 y2 =>
       cx_eqb x1 y1 && cx_eqb x2 y2
   | _, _ => false
   end.
@@ -66,3 +72,26 @@ Fixpoint env_of (l : list (string * cval)) (n : string) : cval :=
   end.
 
 Definition occurs (c : cx) (l : list cx) : bool := existsb (cx_eqb c) l.
+
+(* ---- events of the path-sensitive translation (translator/cmd/convertflow) ---- *)
+(* (scope, kind, text, value, path condition) *)
+Definition event := (string * string * string * string * cx)%type.
+Definition ev_scope (e : event) : string := fst (fst (fst (fst e))).
+Definition ev_kind (e : event) : string := snd (fst (fst (fst e))).
+Definition ev_text (e : event) : string := snd (fst (fst e)).
+Definition ev_val (e : event) : string := snd (fst e).
+Definition ev_pc (e : event) : cx := snd e.
+
+Definition disj (l : list cx) : cx := fold_right COr CFalse l.
+
+(* under which condition does an event (scope, kind, text) happen: the disjunction of the path
+   conditions of all its occurrences *)
+Definition pc_of (evs : list event) (scope kind text : string) : cx :=
+  disj (map ev_pc (filter (fun e => String.eqb (ev_scope e) scope && String.eqb (ev_kind e) kind
+                                    && String.eqb (ev_text e) text) evs)).
+(* the same, restricted to a given assigned value *)
+Definition pc_of_val (evs : list event) (scope kind text val : string) : cx :=
+  disj (map ev_pc (filter (fun e => String.eqb (ev_scope e) scope && String.eqb (ev_kind e) kind
+                                    && String.eqb (ev_text e) text && String.eqb (ev_val e) val) evs)).
+Definition happens (evs : list event) (scope kind text : string) : bool :=
+  existsb (fun e => String.eqb (ev_scope e) scope && String.eqb (ev_kind e) kind && String.eqb (ev_text e) text) evs.
